@@ -85,11 +85,27 @@ def kwarg_t(call: T, name: str) -> Optional[T]:
     return None
 
 
+def unzip(t: T) -> Optional[T]:
+    """elem(zip(a, b, c), (i,)) -> the i-th zipped collection; elem(x, ()) -> x.  (one leading axis is iterated away)"""
+    if t.op != "elem":
+        return None
+    it, path = t.args[0], t.args[1]
+    if it.op == "call" and it.args[0].op == "builtin" and it.args[0].args[0] == "zip" and len(path) == 1 \
+            and isinstance(path[0], int) and path[0] < len(it.args[1]):
+        return it.args[1][path[0]]
+    if it.op == "call" and it.args[0].op == "builtin" and it.args[0].args[0] == "enumerate" and path == (1,) and it.args[1]:
+        return it.args[1][0]
+    if path == ():
+        return it
+    return None
+
+
 class Typer:
     def __init__(self, param_roles: Optional[Dict[str, Tuple[str, ...]]] = None, ms_params: Tuple[str, ...] = ()):
         self.param_roles = param_roles or {}
         self.ms_params = set(ms_params)
-        self._memo: Dict[int, Optional[Tuple[str, ...]]] = {}
+        self._memo: Dict[int, tuple] = {}
+        self.prev_env: Dict[str, Tuple[str, ...]] = {}      # roles of loop-carried variables, set by the rules
         self.conflicts: List[Tuple[T, str]] = []
 
     # ------------------------------------------------------------------ provenance
@@ -117,24 +133,60 @@ class Typer:
             if e in PRESERVE_FUNCS and t.args[1]:
                 return self.base_array(t.args[1][0], depth + 1)
         if t.op == "where":
-            return self.base_array(t.args[2], depth + 1)
+            b = self.base_array(t.args[2], depth + 1)
+            if b is None and self._is_alloc(t.args[2]):
+                # X = zeros(...); X[i] = model_array  (batch stacking)
+                return self.base_array(t.args[1], depth + 1)
+            return b
+        if t.op == "elem":
+            u = unzip(t)
+            return self.base_array(u, depth + 1) if u is not None else None
         if t.op == "unary":
             return self.base_array(t.args[1], depth + 1)
         if t.op == "inlined":
             return self.base_array(t.args[1], depth + 1)
+        if t.op == "proj":
+            return self.base_array(t.args[0], depth + 1)
         if t.op == "phi":
-            bs = {self.base_array(a, depth + 1) for a in t.args[0] if a.op not in ("prev", "undef")}
+            # a fresh allocation that is subsequently filled (X = zeros(...); X[i] = model) contributes nothing itself
+            alts = [a for a in t.args[0] if a.op not in ("prev", "undef") and not self._pure_alloc(a)]
+            bs = {self.base_array(a, depth + 1) for a in alts}
             return bs.pop() if len(bs) == 1 else None
         return None
+
+    def _pure_alloc(self, t: T) -> bool:
+        return t.op == "call" and ext_name(t.args[0]) in ("numpy.zeros", "numpy.ones", "numpy.empty", "torch.zeros")
+
+    def stacked_value(self, t: T, depth: int = 0) -> Optional[T]:
+        """for a batch array filled by X[i] = v: the stored value v (looking through phi / later partial stores)."""
+        if depth > 20:
+            return None
+        if t.op == "where":
+            if self._is_alloc(t.args[2]) and not any(self.stacked_value(t.args[2], depth + 1) is not None for _ in (0,)):
+                return t.args[1]
+            return self.stacked_value(t.args[2], depth + 1)
+        if t.op == "phi":
+            vs = [self.stacked_value(a, depth + 1) for a in t.args[0] if a.op not in ("prev", "undef") and not self._pure_alloc(a)]
+            vs = [v for v in vs if v is not None]
+            return vs[0] if vs else None
+        return None
+
+    def _is_alloc(self, t: T) -> bool:
+        while t.op == "where":
+            t = t.args[2]
+        if t.op == "phi":
+            return any(self._is_alloc(a) for a in t.args[0])
+        return t.op == "call" and ext_name(t.args[0]) in ("numpy.zeros", "numpy.ones", "numpy.empty", "torch.zeros")
 
     # ------------------------------------------------------------------ roles
     def roles(self, t: T, depth: int = 0) -> Optional[Tuple[str, ...]]:
         k = id(t)
-        if k in self._memo:
-            return self._memo[k]
-        self._memo[k] = None
+        hit = self._memo.get(k)
+        if hit is not None and hit[0] is t:
+            return hit[1]
+        self._memo[k] = (t, None)        # keeps t alive, so its id cannot be reused
         r = self._roles(t, depth)
-        self._memo[k] = r
+        self._memo[k] = (t, r)
         return r
 
     def _shape_roles(self, shape: T, depth: int) -> Optional[Tuple[str, ...]]:
@@ -338,8 +390,18 @@ class Typer:
             return () if isinstance(t.args[0], (int, float)) else None
         if op == "inlined":
             return R(t.args[1])
+        if op == "proj":
+            return R(t.args[0])
         if op == "where":
             return R(t.args[2])
+        if op == "prev":
+            return self.prev_env.get(t.args[0])
+        if op == "elem":
+            u = unzip(t)
+            if u is not None:
+                r = R(u)
+                return r[1:] if r else None
+            return None
         if op == "phi":
             rs = [R(a) for a in t.args[0] if a.op not in ("prev", "undef")]
             rs = [r for r in rs if r is not None]
@@ -466,8 +528,13 @@ class Typer:
             return "Ms"
         if t.op in ("where",):
             return self.variance(t.args[2], depth + 1)
+        if t.op == "elem":
+            u = unzip(t)
+            return self.variance(u, depth + 1) if u is not None else None
         if t.op == "inlined":
             return self.variance(t.args[1], depth + 1)
+        if t.op == "proj":
+            return self.variance(t.args[0], depth + 1)
         if t.op == "phi":
             vs = {self.variance(a, depth + 1) for a in t.args[0] if a.op not in ("prev", "undef")}
             vs.discard(None)
